@@ -38,6 +38,17 @@ theorem consume_spec (s s' : St) (cands rest : List Cand) (h : consume s cands =
       rw [← hs]
       simp [stepResult, hcount, hr]
 
+/-- the atomic model step is the first half of `consume_sample` followed by the second -/
+theorem consume_eq_begin_finish (s : St) (cands : List Cand) :
+    consume s cands =
+      match beginConsume s with
+      | none => .error .index
+      | some m => finishConsume m cands := by
+  unfold consume beginConsume finishConsume
+  cases s.live with
+  | nil => rfl
+  | cons w t => rfl
+
 /-- `consume` never fails in `insert_live_point`: on a non-empty live set the only failure is a
 proposal that stops producing acceptable points. -/
 theorem consume_total (s : St) (cands : List Cand) (hl : s.live ≠ []) :
@@ -327,6 +338,22 @@ def s2 : St :=
             nested := [⟨2, 3, 0, .fin, true⟩, ⟨7, 5, 1, .fin, true⟩], idx := [0, 1], logLmin := some 5,
             iter := 2, accepted := 2, rejected := 2, lastCount := 1,
             hist := [⟨7, 5, 1, .fin, true⟩, ⟨9, 6, 2, .fin, true⟩] }
+
+/-- `s0` pickled in the middle of `consume_sample`: the worst point (id 2) is already recorded and
+the iteration counted, but it is still in the live set and no insertion index exists -/
+def m0 : St :=
+  { s0 with nested := [⟨2, 3, 0, .fin, true⟩], logLmin := some 3, iter := 1 }
+
+theorem begin_s0 : beginConsume s0 = some m0 := by decide
+
+/-- the run resumed from `m0` restarts `consume_sample` from the top: id 2 is recorded again -/
+def m1 : St :=
+  { m0 with live := [⟨7, 5, 2, .fin, true⟩, ⟨1, 5, 0, .fin, true⟩, ⟨5, 7, 0, .fin, true⟩],
+            nested := [⟨2, 3, 0, .fin, true⟩, ⟨2, 3, 0, .fin, true⟩], idx := [0], iter := 2,
+            accepted := 1, rejected := 2, lastCount := 3, hist := [⟨7, 5, 2, .fin, true⟩] }
+
+theorem consume_m0 : consume m0 rest0 = .ok (m1, rest1) :=
+  ok_of_toOption (by decide)
 
 theorem run2_s0 : runSteps 2 s0 rest0 = .ok (s2, []) :=
   ok_of_toOption (by decide)
